@@ -403,6 +403,8 @@ class HistogramND(HistogramBase):
             if weights is not None and weights.shape == valid_rows.shape:
                 weights = weights[valid_rows]
             values_array = values_array[valid_rows]
+        if values_array.shape[0] == 0:
+            return  # Nothing to add
         if weights is not None:
             # TODO: Check for weights size?
             self._coerce_dtype(weights.dtype)
